@@ -66,6 +66,7 @@ var (
 	argO = []*triple.Object{
 		model.ON(nb), model.ON(nc), model.OP(model.PT("p", model.T1)), model.OP(model.PI("p")),
 		model.ON(nz), model.OL(model.L(literal.Text, "x")), model.ON(na),
+		model.OP(model.PT("p", model.T1.In(zonePlus2))), // same predicate object as #2, written in another zone
 	}
 )
 
@@ -406,7 +407,7 @@ func main() {
 	}
 	r.Set("result_size_histogram", hist)
 	r.Set("nontrivial_per_method", perMethodNontrivial)
-	r.Set("rule", "BFS over all subsets of the universe x {add,remove} x {every singleton, every 2-batch}; after each replayed transition: listing + 10 methods x (4 subjects x 8 predicates x 7 objects as applicable), default options; nontrivial = the model expects at least one result and at least one stored triple does not match")
+	r.Set("rule", "BFS over all subsets of the universe x {add,remove} x {every singleton, every 2-batch}; after each replayed transition: listing + 10 methods x (4 subjects x 8 predicates x 8 objects as applicable), default options; nontrivial = the model expects at least one result and at least one stored triple does not match")
 	r.Sample(map[string]interface{}{"path": paths[order[len(order)/2]], "then": ops[len(ops)/3], "query": qs[len(qs)/2]})
 	r.Sample(map[string]interface{}{"path": paths[order[len(order)-1]], "then": ops[0], "query": qs[0]})
 	r.Finish()
